@@ -748,6 +748,7 @@ func (p *pkg) analyseRun(m *method, run *ast.FuncDecl) {
 // ---- Contract.Run guard sequence ----
 
 type runShape struct {
+	flat       bool     // readonly guard, switch check and dispatch are consecutive direct statements of the lookup branch, unconditionally
 	guards     []string // in source order
 	disabledID string   // expression passed as the method id to CheckDisabledPrecompiles
 	errPacked  bool     // every error leaves through PackRetErr*/PackRetError
@@ -761,6 +762,42 @@ func (p *pkg) contractRun() runShape {
 	var rs runShape
 	rs.errPacked = true
 	roName := paramName(run, 2)
+	// the lookup branch: for ... { if bytes.Equal(...) { <readonly guard>; stateDB := ...; <switch check>; ret, err = method.Run; ... } }
+	ast.Inspect(run.Body, func(n ast.Node) bool {
+		ifs, ok := n.(*ast.IfStmt)
+		if !ok || !strings.Contains(src(p, ifs.Cond), "bytes.Equal(") {
+			return true
+		}
+		var seq []string
+		for _, st := range ifs.Body.List {
+			switch x := st.(type) {
+			case *ast.IfStmt:
+				cs := src(p, x.Cond)
+				switch {
+				case x.Init == nil && strings.Contains(cs, "IsReadonly()"):
+					seq = append(seq, "ro")
+				case x.Init != nil && strings.Contains(src(p, x.Init), "CheckDisabledPrecompiles(") && strings.ReplaceAll(cs, " ", "") == "err!=nil":
+					seq = append(seq, "sw")
+				case strings.ReplaceAll(cs, " ", "") == "err!=nil":
+					seq = append(seq, "errchk")
+				default:
+					seq = append(seq, "if?")
+				}
+			case *ast.AssignStmt:
+				if strings.Contains(src(p, x), "method.Run(") {
+					seq = append(seq, "run")
+				} else {
+					seq = append(seq, "assign")
+				}
+			case *ast.ReturnStmt:
+				seq = append(seq, "ret")
+			default:
+				seq = append(seq, "?")
+			}
+		}
+		rs.flat = strings.Join(seq, ",") == "ro,assign,sw,run,errchk,ret"
+		return false
+	})
 	ast.Inspect(run.Body, func(n ast.Node) bool {
 		switch x := n.(type) {
 		case *ast.IfStmt:
@@ -1007,7 +1044,12 @@ func main() {
 		if rs.errPacked {
 			ep = "true"
 		}
-		fmt.Fprintf(&sb, "Definition %s_errors_packed : bool := %s.\n\n", nm, ep)
+		fmt.Fprintf(&sb, "Definition %s_errors_packed : bool := %s.\n", nm, ep)
+		fl := "false"
+		if rs.flat {
+			fl = "true"
+		}
+		fmt.Fprintf(&sb, "(* readonly guard, switch check and dispatch are consecutive unconditional statements of the lookup branch *)\nDefinition %s_guards_flat : bool := %s.\n\n", nm, fl)
 	}
 	gomodB, err := os.ReadFile(filepath.Join(repo, "go.mod"))
 	if err != nil {
